@@ -31,12 +31,14 @@ TECHNIQUE = ("exhaustive walk of a configuration lattice around a payload alphab
              "the real identification (two step sizes, Richardson-combined, must agree), with the additivity over factor "
              "columns, with an independently recomputed block-bootstrap factor, and with the algorithm-class route; the "
              "alphabet contains systems designed (root bracketing on ground truth) so that two distinct eigenvalues share "
-             "their natural frequency")
+             "their natural frequency, and matrices re-assembled from their own singular vectors so that two consecutive retained "
+             "singular values lie 1.5e-3 .. 9e-3 apart (the lower end of the admitted gaps)")
 LEVEL_TEXT = ("every configuration of the stated lattice is executed on the real ssi.build_hank / SSI_fast / SSI_poles "
               "(and SSIcov through SingleSetup); every variance cell of every guarded model order is judged; the lattice includes "
               "systems designed so that two distinct eigenvalues share their natural frequency (exactly / to 1e-6 relative), and a region "
               "in which the same whole-number factor (one-hot columns, small integers) is handed to the function route as a float64, "
-              "float32, int64 and int32 array")
+              "float32, int64 and int32 array, and a region in which two consecutive retained singular values of the Hankel matrix are a designed "
+              "1.5e-3 / 4e-3 / 9e-3 apart (every pair index in the thorough tier)")
 RULE = ("a case is one lattice point (family, channels, reference subset, block rows, order n = ordmax, factor columns, "
         "system variant, in the coincident-frequency region the coincidence variant and the relative frequency offset, in the "
         "factor-dtype region the kind of whole-number factor and the dtype of the array); "
@@ -61,6 +63,10 @@ ASSUMPTIONS = [
     "holding them is typed; the designed factors consist of whole numbers (0/1 one-hot columns, integers -3..3) so that the casts to "
     "float32 / int64 / int32 are exact (checked on the values before the library is called); the reference is the same finite-difference "
     "sum computed from the float64 values, same tolerances (no band of its own for float32: the unchanged tree promotes to float64)",
+    "designed-singular-value-gap region: the exact-family matrix is re-assembled from its own singular vectors with one singular value moved "
+    "(sigma_{i+1} = sigma_i (1 - gap)); the result is a well-conditioned rank-n-plus-small-full-rank matrix of the Hankel shape but no longer "
+    "block-Hankel structured - the identification and the propagation take a plain matrix and never use the structure (as in the whole exact "
+    "family, whose small full-rank part is unstructured too); guards (gaps >= 1e-3, eigenvalue separation) are recomputed on the matrix handed in",
     "record lengths are chosen with N mod nb = 1 so that the block length N//nb is unambiguous; the data factor is additionally judged on a record with N mod nb = nb-1, where either contiguous partition (nb blocks of N//nb, or block lengths differing by one) is accepted provided every block estimate is normalised by its own length",
 ]
 
